@@ -278,10 +278,44 @@ def L.continueToMatchingQuote (l : L) (typ : TT) (capture : Bool) : L × Nat :=
 
 def trimTabs (s : GoStr) : GoStr := (s.dropWhile (· == 9)).reverse.dropWhile (· == 9) |>.reverse
 
-/-- `strings.TrimSpace` on ASCII white space (used on indentation peeks, which the lexer only takes
-after it saw a blank or a tab; U+0085/U+00A0 and the other Unicode spaces: `Stdlib.trimSpaceU`). -/
+/-- the UTF-8 encodings of the runes `unicode.IsSpace` accepts: \t \n \v \f \r, blank, U+0085, U+00A0,
+U+1680, U+2000–U+200A, U+2028, U+2029, U+202F, U+205F, U+3000 -/
+def spaceEncs : List GoStr :=
+  [[9], [10], [11], [12], [13], [32], [0xC2, 0x85], [0xC2, 0xA0], [0xE1, 0x9A, 0x80],
+   [0xE2, 0x80, 0x80], [0xE2, 0x80, 0x81], [0xE2, 0x80, 0x82], [0xE2, 0x80, 0x83], [0xE2, 0x80, 0x84], [0xE2, 0x80, 0x85],
+   [0xE2, 0x80, 0x86], [0xE2, 0x80, 0x87], [0xE2, 0x80, 0x88], [0xE2, 0x80, 0x89], [0xE2, 0x80, 0x8A],
+   [0xE2, 0x80, 0xA8], [0xE2, 0x80, 0xA9], [0xE2, 0x80, 0xAF], [0xE2, 0x81, 0x9F], [0xE3, 0x80, 0x80]]
+
 def isSpaceByte (b : UInt8) : Bool := b == 32 || b == 9 || b == 10 || b == 11 || b == 12 || b == 13
-def trimSpace (s : GoStr) : GoStr := (s.dropWhile isSpaceByte).reverse.dropWhile isSpaceByte |>.reverse
+
+/-- bytes of the white-space rune `s` starts with (0 when it does not start with one) -/
+def spacePrefixLen (s : GoStr) : Nat :=
+  match spaceEncs.find? (fun e => e.isPrefixOf s) with
+  | some e => e.length
+  | none => 0
+
+def trimLeftFuel : Nat → GoStr → GoStr
+  | 0, s => s
+  | n+1, s => let k := spacePrefixLen s; if k == 0 then s else trimLeftFuel n (s.drop k)
+
+/-- `strings.TrimLeft(s, white space)`: a well-formed white-space encoding at the front is the rune
+`DecodeRune` delivers, whatever follows -/
+def trimLeftSpace (s : GoStr) : GoStr := trimLeftFuel s.length s
+
+def spaceSuffixLen (s : GoStr) : Nat :=
+  match spaceEncs.find? (fun e => e.reverse.isPrefixOf s.reverse) with
+  | some e => e.length
+  | none => 0
+
+def trimRightFuel : Nat → GoStr → GoStr
+  | 0, s => s
+  | n+1, s => let k := spaceSuffixLen s; if k == 0 then s else trimRightFuel n (s.take (s.length - k))
+
+/-- `strings.TrimSpace` (`unicode.IsSpace` on both ends; `DecodeLastRune` walks back to the nearest
+rune-start byte, which for a well-formed white-space encoding at the end is its own lead byte) -/
+def trimSpace (s : GoStr) : GoStr :=
+  let a := trimLeftSpace s
+  trimRightFuel a.length a
 
 def countByte (s : GoStr) (b : UInt8) : Nat := s.count b
 
